@@ -724,6 +724,10 @@ func ruleWalMonotone(c *Ctx, r *Reporter) {
 					r.OK(name, c.InsPos(ins), fmt.Sprintf("stores s + %d guarded by s >= old", k))
 					return
 				}
+				if k, isK := constInt(bo.X); isK && k >= 1 && GuardedBy(ins.Block(), larger(bo.Y, false)) {
+					r.OK(name, c.InsPos(ins), fmt.Sprintf("stores %d + s guarded by s >= old", k))
+					return
+				}
 			}
 			r.Bad(name, c.InsPos(ins), "the sequence counter is assigned a value that is not old+k and not guarded by a comparison making it larger than the old value: sequence numbers can go backwards")
 		})
